@@ -400,6 +400,19 @@ def h_code(t: CODE_SEL) -> bool:
 def explain(fn, t):
   if fn == "h_graph":
     return {"adjacency": [[t[i * GN + j] for j in range(GN)] for i in range(GN)]}
+  if fn == "h_real":
+    src = real_source(t)
+    out = {"program": src, "problems": []}
+    for dc in disassemble(src):
+      INFO.clear()
+      try:
+        pr = check_real(dc)
+      except Skip:
+        pr = ["add_pop_block_targets fails with 'POP_BLOCK without block' on real compiler output"]
+      except Exception as e:  # pylint: disable=broad-except
+        pr = ["raised %s: %s" % (type(e).__name__, e)]
+      out["problems"] += ["%s: %s" % (dc.name, p) for p in pr]
+    return out
   ops_spec, excs = decode_code(t)
   try:
     problems = check_code(ops_spec, excs)
@@ -452,6 +465,22 @@ STMTS = [
     "x += 1",
     "for i in y:\n  if c:\n    break\nelse:\n  x = 0",
 ]
+# A second statement list for try bodies that CPython cuts into several
+# exception-table entries on one line (an inlined comprehension has its own
+# cleanup entry) with jumps between the pieces (seed C16-6).
+STMTS_SPLIT = [
+    "x = [i for i in y]\nfor i in x:\n  if i:\n    break",
+    "return x",
+    "x = [i for i in y]",
+    "for i in y:\n  if c:\n    break",
+    "x = {i: v for i, v in y if c}",
+    "raise E(x)",
+    "x = foo([i for i in y], *a)",
+    "try:\n  x = foo(x)\nfinally:\n  x = 0",
+]
+REALSET = param("C16_REALSET", quick=0, thorough=0)
+if REALSET:
+  STMTS = STMTS_SPLIT
 WRAPS = [
     "%s",
     "try:\n%s\nexcept E:\n  x = 0",
@@ -549,7 +578,9 @@ def h_real(t: REAL_SEL) -> bool:
     try:
       pr = check_real(dc)
     except Skip:
-      pr = []
+      # compiler output is block-structured: here the assertion is a failure
+      # (blocks.process_code would raise and the code object gets no graph)
+      pr = ["add_pop_block_targets fails with 'POP_BLOCK without block' on real compiler output"]
     if pr and kf_skip(kf_class(None, None, pr)):
       pr = []
     problems += ["%s: %s" % (dc.name, p) for p in pr]
